@@ -18,11 +18,14 @@ from ..cli import digest
 
 PROP = 'C15'
 LEVEL = 'exploration'
-RULE = ('pool of 18 files: uamiv, lateral boundary, bpch, ICARTT, netCDF, '
+RULE = ('pool of 20 files: uamiv, lateral boundary, bpch, ICARTT, netCDF, '
         'IOAPI-netCDF, ARL packed-bit and one-3D content, each with its '
         'canonical extension, without extension, and (one-3D / netCDF '
         'families) under each sibling reader\'s extension, plus two '
-        'unreadable files under a reader\'s extension. ALL open '
+        'unreadable files under a reader\'s extension and two files of a '
+        'reader registered only by a history event. Events: a format-less '
+        'open of any pool file, the late registration of that reader, an '
+        'open naming a valid reader other than the detected one. ALL event '
         'histories up to the tier bound (quick: length <= 2, thorough: '
         'length <= 3) are run from the import-time interpreter state (forked '
         'children of a pristine helper process) and followed by every pool '
@@ -40,9 +43,11 @@ HOOKS = ['pncopen.return', 'registry.snapshot', 'explicit-vs-auto.compare']
 TECHNIQUE = ('runtime monitoring over exhaustively enumerated open '
              'histories: behavioural comparison with the history-free '
              'observation + registry-unchanged invariant as diagnostic')
-MIN_DISTINCT = {'quick': 1500, 'thorough': 20000}
+MIN_DISTINCT = {'quick': 3000, 'thorough': 50000}
+FACETS_REQUIRED = {t: ['event:open', 'event:reg', 'event:openx']
+                   for t in ('quick', 'thorough')}
 HLEN = {'quick': 2, 'thorough': 3}
-JOBS = {'quick': 8}
+JOBS = {'quick': 14}
 EXHAUSTIVE = {'quick': True, 'thorough': True}
 
 POOL = [
@@ -60,14 +65,28 @@ POOL = [
     # files no reader accepts, under a reader's extension: detection fails
     # (raises); what a failed open leaves behind is part of the history
     ('x.humidity', 'garbage', None), ('y.nc', 'garbage', None),
+    # files of a reader that is only registered by a 'reg' event of the
+    # history (a user subclass defined after import)
+    ('z.verifdemo', 'demo', None), ('z_noext', 'demo', None),
 ]
 NP = len(POOL)
+# history events: format-less opens of every pool file, the late
+# registration of a reader, and opens that NAME a valid reader other than the
+# one auto-detection selects for that file
+TOKENS = [('open', n) for n, _, _ in POOL] + [
+    ('reg',),
+    ('openx', 'h.humidity', 'vertical_diffusivity'),
+    ('openx', 'c.bpch', 'bpch1'),
+    ('openx', 'h_noext', 'humidity'),
+    ('openx', 'e.nc', 'ioapi'),
+]
+NT = len(TOKENS)
 
 
 def histories(maxlen):
     out = [()]
     for n in range(1, maxlen + 1):
-        idx = np.indices((NP,) * n).reshape(n, -1).T
+        idx = np.indices((NT,) * n).reshape(n, -1).T
         out += [tuple(int(x) for x in row) for row in idx]
     return out
 
@@ -129,6 +148,7 @@ def make_pool():
             for i in range(40)]
     img['ict'] = ('\n'.join(ict) + '\n').encode()
     img['garbage'] = b'\x07garbage\x00\x01'
+    img['demo'] = b'VERIFDEMO' + bytes(range(1, 12))
     for name, kind, fmt in POOL:
         p = os.path.join(d, name)
         if kind == 'nc':
@@ -173,6 +193,28 @@ def observe(path, fmt=None):
                 f.close()
         except Exception:
             pass
+
+
+def register_demo():
+    """defines (and thereby registers) a reader class, as user code does"""
+    from PseudoNetCDF.core._files import PseudoNetCDFFile
+
+    class verifdemo(PseudoNetCDFFile):
+        @classmethod
+        def isMine(cls, path, *args, **kwds):
+            try:
+                with open(path, 'rb') as fh:
+                    return fh.read(9) == b'VERIFDEMO'
+            except Exception:
+                return False
+
+        def __init__(self, path, *args, **kwds):
+            with open(path, 'rb') as fh:
+                raw = fh.read()[9:]
+            self.createDimension('n', len(raw))
+            v = self.createVariable('b', 'i', ('n',))
+            v[:] = np.frombuffer(raw, 'u1')
+    return verifdemo
 
 
 _z = {}
@@ -222,8 +264,12 @@ def serve():
             try:
                 reg0 = list(_getreader._readers)
                 grew = 0
-                for p in req['history']:
-                    observe(p)
+                for ev in req['history']:
+                    if ev[0] == 'reg':
+                        register_demo()
+                        reg0 = list(_getreader._readers)
+                        continue
+                    observe(ev[1], fmt=ev[2] if ev[0] == 'openx' else None)
                     if list(_getreader._readers) != reg0:
                         grew += 1
                 out = observe(req['probe'], fmt=req.get('fmt'))
@@ -251,12 +297,20 @@ _base = {}
 def run(spec, res):
     pool = make_pool()
     hist_ = spec['history']
-    hpaths = [pool[POOL[h][0]] for h in hist_]
+    toks = [TOKENS[h] for h in hist_]
+    hpaths = [[t[0]] + ([pool[t[1]]] if len(t) > 1 else []) + list(t[2:])
+              for t in toks]
+    # "the file and the set of registered readers": the history-free
+    # reference has the same registrations and no opens
+    regs = [['reg']] if any(t[0] == 'reg' for t in toks) else []
+    for t in toks:
+        res.facet('event:' + t[0])
     problems = []
     grew = 0
     for pi, (name, kind, fmt) in enumerate(POOL):
-        if name not in _base:
-            _base[name] = ask([], pool[name])[:3]
+        bkey = (name, bool(regs))
+        if bkey not in _base:
+            _base[bkey] = ask(regs, pool[name])[:3]
         got = ask(hpaths, pool[name])
         if got is None:
             res.note('inconclusive:child-produced-nothing')
@@ -265,33 +319,37 @@ def run(spec, res):
         res.hook('registry.snapshot', len(hist_) or 1)
         grew = max(grew, got[3] if len(got) > 3 else 0)
         res.ev(digest([hist_, pi]), len(hist_) > 0, ['hlen:%d' % len(hist_)])
-        if got[:3] != _base[name]:
+        if got[:3] != _base[bkey]:
             problems.append(
-                'after opening %s, %s opens as %s %s (from the import-time '
-                'state: %s %s)' % ([POOL[h][0] for h in hist_], name, got[0],
-                                   got[1], _base[name][0], _base[name][1]))
+                'after %s, %s opens as %s %s (from the import-time state%s: '
+                '%s %s)' % ([' '.join(t) for t in toks], name, got[0],
+                            got[1], ' plus the same registration' if regs
+                            else '', _base[bkey][0], _base[bkey][1]))
     if not hist_:
         for name, kind, fmt in POOL:
             if fmt is None:
                 continue
+            bkey = (name, False)
             ex = ask([], pool[name], fmt=fmt)
             res.hook('explicit-vs-auto.compare')
-            if ex[1:3] != _base[name][1:3]:
+            if ex[1:3] != _base[bkey][1:3]:
                 problems.append(
                     '%s: auto-detected as %s with dims %s, format=%r gives '
-                    '%s with dims %s' % (name, _base[name][0],
-                                         _base[name][1], fmt, ex[0], ex[1]))
+                    '%s with dims %s' % (name, _base[bkey][0],
+                                         _base[bkey][1], fmt, ex[0], ex[1]))
     else:
         res.hook('explicit-vs-auto.compare', 0)
     if problems:
         res.viol('history-dependent-detection' if hist_ else
                  'explicit-differs-from-auto',
-                 '; '.join(problems[:3]), history=[POOL[h][0] for h in hist_],
+                 '; '.join(problems[:3]), history=[' '.join(t) for t in toks],
                  registry_changed_during_history=grew,
                  nproblems=len(problems))
 
 
 def extra_coverage(agg, tier):
     return {'histories_enumerated': len(hist(tier)),
-            'history_bound': 'all sequences of length <= %d over %d files'
-                             % (HLEN[tier], NP)}
+            'history_bound': 'all sequences of length <= %d over %d events '
+                             '(%d format-less opens, 1 late registration, '
+                             '%d opens naming another valid reader)'
+                             % (HLEN[tier], NT, NP, NT - NP - 1)}
